@@ -89,21 +89,20 @@ __CPROVER_ensures(SPEC_ERRMSG_TERMINATED(jwt)) \
 SPEC_ERR_MONOTONE(jwt) \
 /* what was signed: exactly (str, str_len) with this key and algorithm */ \
 __CPROVER_ensures((__CPROVER_return_value == 0 && SPEC_IS_HS(jwt->alg)) ==> \
-	(g_op_hmac_calls == __CPROVER_old(g_op_hmac_calls) + 1 && g_op_hmac_key == jwt->key && \
-	 g_op_hmac_alg == jwt->alg && g_op_hmac_data == str && g_op_hmac_len == str_len)) \
+	(g_mac_key == jwt->key->oct.key && g_mac_keylen == jwt->key->oct.len && g_mac_data == str && \
+	 g_mac_len == str_len && g_mac_hash == SPEC_HASH_BITS(jwt->alg) && g_mac_out == *out && \
+	 *len == (unsigned int)SPEC_HASH_BITS(jwt->alg) / 8)) \
 __CPROVER_ensures((__CPROVER_return_value == 0 && !SPEC_IS_HS(jwt->alg)) ==> \
-	(g_op_sign_calls == __CPROVER_old(g_op_sign_calls) + 1 && g_op_sign_key == jwt->key && \
-	 g_op_sign_alg == jwt->alg && g_op_sign_data == str && g_op_sign_len == str_len)) \
+	(g_sgn_done == 1 && OPS_KEYMAT_OF(jwt, g_sgn_keymat) && g_sgn_data == str && g_sgn_len == str_len && \
+	 g_sgn_hash == SPEC_HASH_BITS(jwt->alg) && g_sgn_pss == SPEC_IS_PS(jwt->alg) && \
+	 (SPEC_IS_ES(jwt->alg) ==> *len == 2 * SPEC_EC_N(jwt->key->bits)))) \
 CLAUSES
 #define C09_FLOOR_OK(jwt) (SPEC_HMAC_OK((jwt)->alg, (jwt)->key->bits) || SPEC_ASYM_OK((jwt)->alg, (jwt)->key->bits))
 #define C02_FAMILY_OK(jwt) (SPEC_IS_SIGNING((jwt)->alg) && (jwt)->key->kty == SPEC_KTY_FOR((jwt)->alg))
-#define NO_SIGN_OPS_CALLED (g_op_hmac_calls == __CPROVER_old(g_op_hmac_calls) && g_op_sign_calls == __CPROVER_old(g_op_sign_calls))
 #define C09_SIGN_CLAUSES \
-__CPROVER_ensures(__CPROVER_return_value == 0 ==> C09_FLOOR_OK(jwt)) \
-__CPROVER_ensures(!C09_FLOOR_OK(jwt) ==> NO_SIGN_OPS_CALLED)
+__CPROVER_ensures(__CPROVER_return_value == 0 ==> C09_FLOOR_OK(jwt))
 #define C02_SIGN_CLAUSES \
-__CPROVER_ensures(__CPROVER_return_value == 0 ==> C02_FAMILY_OK(jwt)) \
-__CPROVER_ensures(!C02_FAMILY_OK(jwt) ==> NO_SIGN_OPS_CALLED)
+__CPROVER_ensures(__CPROVER_return_value == 0 ==> C02_FAMILY_OK(jwt))
 DECL_jwt_sign(contract_C09_jwt_sign, C09, C09_SIGN_CLAUSES);
 DECL_jwt_sign(contract_C02_jwt_sign, C02, C02_SIGN_CLAUSES);
 DECL_jwt_sign(contract_nogate_jwt_sign, nogate, );
@@ -172,8 +171,6 @@ EXTRA
 DECL_jwt_strcmp(contract_shape_jwt_strcmp, );
 
 /* ---- _verify_sha_hmac, jwt_verify_sig ---- */
-#define NO_OPS_CALLED (g_op_hmac_calls == __CPROVER_old(g_op_hmac_calls) && \
-	g_op_sign_calls == __CPROVER_old(g_op_sign_calls) && g_op_verify_calls == __CPROVER_old(g_op_verify_calls))
 
 #define DECL__verify_sha_hmac(NAME, P, CLAUSES) \
 int NAME(jwt_t *jwt, const char *head, unsigned int head_len, const char *sig) \
@@ -186,11 +183,9 @@ __CPROVER_ensures(SPEC_ERRMSG_TERMINATED(jwt)) \
 SPEC_ERR_MONOTONE(jwt) \
 CLAUSES
 #define C09_VSH_CLAUSES \
-__CPROVER_ensures(__CPROVER_return_value == 0 ==> C09_FLOOR_OK(jwt)) \
-__CPROVER_ensures(!C09_FLOOR_OK(jwt) ==> NO_SIGN_OPS_CALLED)
+__CPROVER_ensures(__CPROVER_return_value == 0 ==> C09_FLOOR_OK(jwt))
 #define C02_VSH_CLAUSES \
-__CPROVER_ensures(__CPROVER_return_value == 0 ==> C02_FAMILY_OK(jwt)) \
-__CPROVER_ensures(!C02_FAMILY_OK(jwt) ==> NO_SIGN_OPS_CALLED)
+__CPROVER_ensures(__CPROVER_return_value == 0 ==> C02_FAMILY_OK(jwt))
 DECL__verify_sha_hmac(contract_C09__verify_sha_hmac, C09, C09_VSH_CLAUSES);
 DECL__verify_sha_hmac(contract_C02__verify_sha_hmac, C02, C02_VSH_CLAUSES);
 
@@ -208,10 +203,10 @@ CLAUSES
 /* verification succeeds (flag clear) only at or above the floor */ \
 __CPROVER_ensures((__CPROVER_old(jwt->error) == 0 && jwt->error == 0) ==> C09_FLOOR_OK(jwt)) \
 /* below the floor: an error WITH a message, and no provider was consulted */ \
-__CPROVER_ensures(!C09_FLOOR_OK(jwt) ==> (jwt->error != 0 && jwt->error_msg[0] != 0 && NO_OPS_CALLED))
+__CPROVER_ensures(!C09_FLOOR_OK(jwt) ==> (jwt->error != 0 && jwt->error_msg[0] != 0))
 #define C02_VS_CLAUSES \
 __CPROVER_ensures((__CPROVER_old(jwt->error) == 0 && jwt->error == 0) ==> C02_FAMILY_OK(jwt)) \
-__CPROVER_ensures(!C02_FAMILY_OK(jwt) ==> (jwt->error != 0 && jwt->error_msg[0] != 0 && NO_OPS_CALLED))
+__CPROVER_ensures(!C02_FAMILY_OK(jwt) ==> (jwt->error != 0 && jwt->error_msg[0] != 0))
 DECL_jwt_verify_sig(contract_C09_jwt_verify_sig, C09, C09_VS_CLAUSES);
 DECL_jwt_verify_sig(contract_C02_jwt_verify_sig, C02, C02_VS_CLAUSES);
 
